@@ -77,6 +77,9 @@ class Scratch:
     """Scratch copy of /repo's working tree + build dirs, removed on close."""
 
     def __init__(self, tag):
+        # tools/run_seeded.sh holds this lock while /repo carries a seeded patch (a few seconds): do not snapshot then
+        while os.path.exists("/tmp/verif-repo-patched.lock") and not os.environ.get("VERIF_IGNORE_LOCK"):
+            time.sleep(1)
         base = os.environ.get("VERIF_SCRATCH_BASE", "/tmp")
         self.dir = tempfile.mkdtemp(prefix="dryoc-verif-%s-" % tag, dir=base)
         self.repo = os.path.join(self.dir, "repo")
